@@ -243,6 +243,64 @@ def run(chk):
         r4.ob("Num/%s -> buildInt(base %d, prefixed=%s)" % (k, v[0], v[1]), bases.get(k) == v, g.where, g["q"], "got %s" % (bases.get(k),))
     r4.require(60, "ladder cases")
 
+    # ------------------------------------------------------------------ R16.5 UTF-8 encoding table
+    r5 = chk.rule("R16.5", "\\u / \\U escapes are encoded with the UTF-8 table: thresholds 0x80 / 0x800 / 0x10000 / 0x200000, lead bytes 0xC0 / 0xE0 / 0xF0, continuation bytes 0x80 | 6 bits, most significant group first",
+                  "\\u and \\U escapes contain exactly the bytes of the UTF-8 encoding of the code point")
+    pus = [g for g in prog.fns if g["name"] == "process_unicode" and "Char_Parser" in (g.get("cls") or "") and g["tk"] == "inst"]
+    r5.anchor(pus, "Char_Parser::process_unicode")
+    g = pus[0]
+    chk.touched(pus[:1])
+    WANT = {0x80: [], 0x800: [(0xC0, 6, None), (0x80, 0, 0x3F)], 0x10000: [(0xE0, 12, None), (0x80, 6, 0x3F), (0x80, 0, 0x3F)],
+            0x200000: [(0xF0, 18, None), (0x80, 12, 0x3F), (0x80, 6, 0x3F), (0x80, 0, 0x3F)]}
+
+    def byte_form(e):
+        """`LEAD | (ch >> S)` / `LEAD | ((ch >> S) & M)` / `LEAD | (ch & M)` -> (LEAD, S, M)"""
+        e = strip_casts(e)
+        if e.get("k") != "binop" or e.get("op") != "|":
+            return None
+        lead = strip_casts(e["lhs"])
+        rest = strip_casts(e["rhs"])
+        if lead.get("k") != "lit":
+            return None
+        mask = None
+        if rest.get("k") == "binop" and rest.get("op") == "&":
+            m = strip_casts(rest["rhs"])
+            mask = m.get("v") if m.get("k") == "lit" else "?"
+            rest = strip_casts(rest["lhs"])
+        shift = 0
+        if rest.get("k") == "binop" and rest.get("op") == ">>":
+            sh = strip_casts(rest["rhs"])
+            shift = sh.get("v") if sh.get("k") == "lit" else "?"
+            rest = strip_casts(rest["lhs"])
+        if rest.get("k") != "ref":
+            return None
+        return (lead.get("v"), shift, mask)
+
+    arms = {}
+    for n in walk(g["body"]):
+        if n.get("k") == "if":
+            c = strip_casts(n.get("cond") or {})
+            if c.get("k") == "binop" and c.get("op") in ("<", "<=") and strip_casts(c["rhs"]).get("k") == "lit" and strip_casts(c["lhs"]).get("k") == "ref":
+                thr = strip_casts(c["rhs"]).get("v") + (1 if c["op"] == "<=" else 0)      # exclusive upper bound of the arm
+                forms = {}
+                applen = None
+                for x in walk(n.get("then") or {}):
+                    if x.get("k") == "assign" and x.get("op") == "=" and strip_casts(x["lhs"]).get("k") == "subscript":
+                        idx = strip_casts(strip_casts(x["lhs"])["idx"]).get("v")
+                        forms[idx] = byte_form(x["rhs"])
+                    if x.get("k") == "call" and x.get("name") == "append" and len(x.get("args", [])) == 2:
+                        applen = strip_casts(x["args"][1]).get("v")
+                arms[thr] = ([forms.get(i) for i in range(len(forms))], applen)
+    r5.anchor(len(arms) >= 4, "the four range arms of process_unicode (found thresholds %s)" % sorted(arms))
+    for thr, want in sorted(WANT.items()):
+        got = arms.get(thr)
+        ok = got is not None and got[0] == want and (got[1] == len(want) if want else True)
+        r5.ob("process_unicode: code points below 0x%X are encoded as %d byte(s) %s" % (thr, max(1, len(want)), [("0x%X|ch>>%d%s" % (a, b, "&0x%X" % c if c else "")) for a, b, c in want]),
+              ok, g.where, g["q"], "arm is %s" % (got,))
+    extra = sorted(set(arms) - set(WANT))
+    r5.ob("process_unicode: no further range arms (code points from 0x200000 are rejected)", not extra, g.where, g["q"], "unexpected thresholds %s" % [hex(x) for x in extra])
+    r5.require(5, "encoding arms")
+
 
 # =============================================================================== helpers
 
